@@ -50,7 +50,7 @@ int __real_connect(int, const struct sockaddr *, socklen_t);
 #define AH_MAGIC 0x6c696665a110c8edULL
 struct ah { uint64_t magic; size_t size; int tag; long serial; struct ah *prev, *next; };
 static struct ah live_head = { 0, 0, 0, 0, &live_head, &live_head };
-static long a_live, a_bytes, case_serial, leaked_blocks;
+static long a_live, a_bytes, case_serial;
 static int cur_tag = -1;
 static void *a_malloc(size_t sz)
 {
@@ -91,7 +91,7 @@ static void *a_realloc(void *p, size_t sz)
 #include <signal.h>
 #define SH_MAXSTAT 64
 #define SH_MAXHASH 60000
-struct shared { volatile long cur, done, leaked_blocks; struct { char name[48]; long n; } stats[SH_MAXSTAT]; long nh; uint64_t hashes[SH_MAXHASH]; };
+struct shared { volatile long cur, done; struct { char name[48]; long n; } stats[SH_MAXSTAT]; long nh; uint64_t hashes[SH_MAXHASH]; };
 static struct shared *sh;
 static void xs_add(const char *name, long n)
 {
@@ -497,8 +497,10 @@ static void final_checks(int ending, long mem0, int fds0, const char *fdlist0, i
 				vh_viol(key, "%ld library allocation(s) made on behalf of this object type still live after releasing every object and event_base_free (ending %d; %ld blocks of this case in total) | history: %s", seen[i], ending, nb, script);
 			}
 			if (nb != a_live - mem0) vh_viol("C10:memory-remains:unattributed", "live blocks grew by %ld but %ld belong to this case | history: %s", a_live - mem0, nb, script);
-			leaked_blocks += a_live - mem0;
 		}
+		/* reclaim what was reported, so that the final census and LeakSanitizer only speak about memory
+		 * that no per-case verdict has already attributed */
+		if (!quiet_run) { struct ah *n; for (h = live_head.next; h != &live_head; h = n) { n = h->next; if (h->serial == case_serial) a_free(h + 1); } }
 	}
 	fds1 = fd_census(fdlist1, sizeof(fdlist1));
 	if (fds1 != fds0 || strcmp(fdlist0, fdlist1)) {
@@ -639,10 +641,12 @@ static void child_finish(void)
 {
 	sf_observer = NULL;
 	libevent_global_shutdown();
-	if (a_live - leaked_blocks != 0) {
+	if (a_live != 0) {
 		vh_cur_case = -1;
-		vh_viol("C10:memory-remains-after-shutdown:process", "%ld library allocation(s) (beyond the %ld already reported per case) still live after every base was freed and libevent_global_shutdown()", a_live - leaked_blocks, leaked_blocks);
+		vh_viol("C10:memory-remains-after-shutdown:process", "%ld library allocation(s) (not attributable to a case) still live after every base was freed and libevent_global_shutdown()", a_live);
 	} else xs("global_shutdown_census_clean");
+	/* let LeakSanitizer give its own verdict at exit: blocks must not stay reachable through this census list */
+	{ struct ah *h = live_head.next, *n; for (; h != &live_head; h = n) { n = h->next; h->prev = h->next = NULL; } live_head.next = live_head.prev = &live_head; }
 	fflush(stdout);
 }
 
